@@ -164,7 +164,11 @@ func (g *FieldGen) berTag() string {
 	}
 	first |= 0x1F
 	out := []byte{first}
-	for k := r.Intn(3); k > 0; k-- {
+	more := r.Intn(3)
+	if r.Intn(6) == 0 {
+		more = 3 + r.Intn(2) // five- and six-byte tags: BER does not stop at four
+	}
+	for k := more; k > 0; k-- {
 		out = append(out, byte(r.U64())|0x80)
 	}
 	out = append(out, byte(r.U64())&0x7F)
@@ -832,7 +836,17 @@ func ChannelO(t Tier, r *Rng, emit Emit) {
 					tags[string(r.From([]byte("0123456789"), l))] = true // one length
 				}
 			case "hex":
-				tags[strings.ToUpper(fmt.Sprintf("%x", r.Bytes(l)))] = true
+				if i%3 == 0 {
+					// tags of different lengths, up to 7 bytes (BER tags are not limited to four), no
+					// leading zero byte: distinct strings are distinct values
+					b := r.Bytes(1 + r.Intn(7))
+					if b[0] == 0 {
+						b[0] = 0x9F
+					}
+					tags[strings.ToUpper(fmt.Sprintf("%x", b))] = true
+				} else {
+					tags[strings.ToUpper(fmt.Sprintf("%x", r.Bytes(l)))] = true
+				}
 			}
 		}
 		// hex: distinct values required (K6) — equal-length distinct hex strings have distinct values
